@@ -177,6 +177,10 @@ type FuncSpec struct {
 	InOutVal map[string]int
 	// AlsoRet: RetVal function whose Lean twin returns (value, final value of this parameter) - the callee side of InOutVal
 	AlsoRet string
+	// (C14 / C02, added independently in round 3 and unified on merge) AlsoRetType: see below
+	// (C14) ClosureState: with Closures, a function literal WITHOUT results whose effect is the change it makes to this (reference-typed)
+	// parameter (`func(values url.Values) { values.Set(..) }`): the Lean lambda returns the parameter's final value
+	ClosureState string
 
 	// ---- error values as structures (C11 error side; default-off)
 	// ErrStruct: `oidc.ErrX().WithDescription(..).WithParent(..)` is NOT collapsed to the name "ErrX": constructors and With-methods are
@@ -1539,6 +1543,16 @@ func (t *tr) block(stmts []ast.Stmt, k cont) string {
 					if t.spec.Imperative && vs.Type != nil {
 						t.varTypes[n.Name] = goSrc(t.fset, vs.Type)
 					}
+				}
+				if len(vs.Values) == len(vs.Names) && len(vs.Values) > 0 {
+					// (C14) var x T = e   ->   let x := e   (was dropped, which left `x` unbound in the Lean text: a value-neutral rewrite of
+					// `x := e` came out as a definition that does not elaborate)
+					for i, n := range vs.Names {
+						if n.Name != "_" {
+							out += "let " + t.ident(n.Name) + " := " + t.expr(vs.Values[i]) + ";\n" + t.pad()
+						}
+					}
+					continue
 				}
 				if len(vs.Values) != 0 || vs.Type == nil {
 					continue
